@@ -1,5 +1,8 @@
 SPECIFICATION Spec
 CONSTANTS MaxLen = 3
+          MaxFill = 2
+          CoreFill = 3
           SimLens = {}
+          SimFill = {}
 INVARIANT Emit
 CHECK_DEADLOCK FALSE
